@@ -675,9 +675,14 @@ def opgen_stage(ctx, R, opsets, by_cls, stats):
         else:
             ctx.tie_broken("translator", "opgen-output", "model does not evaluate on the generator's output: " + raw[-1200:])
     seen = set()
+    CAP = 12       # one shared cause usually touches hundreds of methods: the first few per field are enough to replay
+    per_field = {}
     for d in diffs:
         key = f"C17:opgen-output-differs:{d['cls']}.{d['op']}:{d['field']}"
         if key in seen:
+            continue
+        per_field[d["field"]] = per_field.get(d["field"], 0) + 1
+        if per_field[d["field"]] > 4 or len(seen) >= CAP:
             continue
         seen.add(key)
         gf = gen_fails.get((d["cls"], d["op"]))
@@ -685,7 +690,7 @@ def opgen_stage(ctx, R, opsets, by_cls, stats):
                       f"generator {d['generator']!r} vs checked-in {d['checked_in']!r}"
                       + (f"; the generator's method fails the schema test: {gf}" if gf else ""),
                       dict(d, generator_fails_schema_test=gf, how="python opgen --exclude ai.onnx.preview.training/1 into a scratch directory"))
-    for (c_, op_), what_ in sorted(gen_fails.items()):
+    for (c_, op_), what_ in sorted(gen_fails.items())[:CAP]:
         if not any(d["cls"] == c_ and d["op"] == op_ for d in diffs):
             ctx.violation(f"C17:opgen-output:{c_}.{op_}:{what_.split(',')[0]}", f"what opgen generates for {c_}.{op_} does not mirror the schema: {what_}",
                           {"class": c_, "op": op_, "what": what_})
